@@ -729,10 +729,18 @@ func (g *gen) field(k string, depth int) gfield {
 	case 30:
 		var ip, mask []byte
 		pk := r.Intn(4)
-		if g.c08 { // C08: canonical prefixes
+		if g.c08 { // C08: canonical prefixes (IP and mask of one length), IPv4-mapped ones included
 			pk = r.Intn(2)
+			if r.Chance(25) {
+				pk = 4
+			}
 		}
 		switch pk {
+		case 4:
+			ip, mask = net.ParseIP("::ffff:1.2.3.0"), net.CIDRMask(96+r.Intn(33), 128)
+			if r.Bool() {
+				ip, mask = net.ParseIP("::ffff:10.20.0.0"), net.CIDRMask(r.Intn(129), 128)
+			}
 		case 0:
 			ip, mask = []byte{192, 168, 0, 0}, net.CIDRMask(r.Intn(33), 32)
 		case 1:
